@@ -8,7 +8,7 @@ from collections import defaultdict
 from engine import gen_states, pool_map
 from readers import gaf_record, read_text, run_cli, write_text
 
-EXTRA = ["tp:A:P", "NM:i:3", "zd:Z:abc"]
+EXTRA = ["tp:A:P", "NM:i:-3", "zd:Z:a:b c#1"]
 
 
 def segs_of(ref, hap, base=10):
